@@ -134,10 +134,12 @@ class Resolver(object):
         """name is assigned somewhere in func (or is a param)"""
         if name in func.all_params():
             return True
-        for x in ast.walk(func.node):
-            if isinstance(x, ast.Name) and x.id == name and isinstance(x.ctx, ast.Store):
-                return True
-        return False
+        stored = getattr(func, '_stored_names', None)
+        if stored is None:
+            stored = set(x.id for x in ast.walk(func.node)
+                         if isinstance(x, ast.Name) and isinstance(x.ctx, ast.Store))
+            func._stored_names = stored
+        return name in stored
 
 
 _RES = {}
